@@ -162,6 +162,8 @@ func scalar(v val.Value) string {
 	switch x := v.(type) {
 	case val.Decimal64:
 		return strconv.FormatFloat(float64(x), 'f', 2, 64)
+	case val.NotEmptyType:
+		return "" // the model's canonical value of an empty-typed leaf
 	}
 	return v.String()
 }
@@ -172,6 +174,10 @@ type N struct {
 	L *model.ListT
 	// ReadOnly panics on writes (used as a pure source).
 	ReadOnly bool
+	// Lenient: a stored text that does not convert to the leaf's type reads as
+	// unset instead of failing (request-damage sessions store what the library
+	// accepted, which is not this package's business to judge).
+	Lenient bool
 	// Exclusive makes writes enforce choice exclusivity the way a store with a
 	// real one-of representation would (off: behaves like a plain map).
 	OnWrite func()
@@ -180,8 +186,12 @@ type N struct {
 func Tree(t *model.Tree) *N  { return &N{T: t} }
 func List(l *model.ListT) *N { return &N{L: l} }
 
-func (n *N) child(t *model.Tree) *N { return &N{T: t, ReadOnly: n.ReadOnly, OnWrite: n.OnWrite} }
-func (n *N) list(l *model.ListT) *N { return &N{L: l, ReadOnly: n.ReadOnly, OnWrite: n.OnWrite} }
+func (n *N) child(t *model.Tree) *N {
+	return &N{T: t, ReadOnly: n.ReadOnly, OnWrite: n.OnWrite, Lenient: n.Lenient}
+}
+func (n *N) list(l *model.ListT) *N {
+	return &N{L: l, ReadOnly: n.ReadOnly, OnWrite: n.OnWrite, Lenient: n.Lenient}
+}
 func (n *N) wrote() {
 	if n.ReadOnly {
 		panic("mnode: write to read-only source")
@@ -243,6 +253,10 @@ func (n *N) keyVals(e *model.Tree) ([]val.Value, error) {
 	var out []val.Value
 	for _, k := range e.S.Keys {
 		v, err := ToVal(e.S.Child(k), e.Leaf[k])
+		if err != nil && n.Lenient {
+			out = append(out, nil)
+			continue
+		}
 		if err != nil {
 			return nil, fmt.Errorf("mnode: entry of %s holds key %s=%q: %w", e.S.Path(), k, e.Leaf[k], err)
 		}
@@ -315,6 +329,11 @@ func (n *N) Field(r node.FieldRequest, hnd *node.ValueHandle) error {
 		hnd.Val, err = ToVal(s, v)
 	}
 	if err != nil {
+		if n.Lenient {
+			// whatever the library stored here earlier is reported as absent
+			hnd.Val = nil
+			return nil
+		}
 		err = fmt.Errorf("mnode: model holds %q for %s %s (%s): %w", n.T.Leaf[name], s.Kind, s.Path(), s.Type, err)
 	}
 	return err
